@@ -252,7 +252,9 @@ Lemma join_g_spec E g mid fresh sess reb topics now :
     (e = NONE \/ e = REBALANCE_IN_PROGRESS) /\
     (e = NONE <-> g_phase g5 <> PPreparing) /\
     (ms <> [] -> e = NONE /\ g_leader g5 = Some (join_id g mid fresh)) /\
-    (forall k, In k (keys g5) <-> k = join_id g mid fresh \/ In k (keys g)).
+    (forall k, In k (keys g5) <-> k = join_id g mid fresh \/ In k (keys g)) /\
+    (g_phase g = PStable -> g_gen g5 = g_gen g ->
+     g_phase g5 = PStable /\ subs (g_members g5) = subs (g_members g) /\ g_assign g5 = g_assign g).
 Proof.
   intros Hg. rewrite join_g_unfold. cbn zeta. fold (join_id g mid fresh).
   set (id := join_id g mid fresh).
@@ -265,19 +267,26 @@ Proof.
   (* shape of the conclusion from a wf stage-3 group *)
   assert (forall g2, wfj E id g2 -> In id (keys g2) -> g_gen g <= g_gen g2 ->
                      (forall k, In k (keys g2) <-> k = id \/ In k (keys g)) ->
+                     (g_phase g = PStable -> g_gen g2 = g_gen g ->
+                      g_phase g2 = PStable /\ subs (g_members g2) = subs (g_members g) /\ g_assign g2 = g_assign g) ->
     exists g5 e ms, join_tail (with_members g2 (set_joingen id (g_gen g2) (g_members g2))) id =
                     Save g5 (RJoin e (g_gen g5) (g_leader g5) id ms) /\
       wf E g5 /\ g_gen g <= g_gen g5 /\ In id (keys g5) /\ (e = NONE \/ e = REBALANCE_IN_PROGRESS) /\
       (e = NONE <-> g_phase g5 <> PPreparing) /\ (ms <> [] -> e = NONE /\ g_leader g5 = Some id) /\
-      (forall k, In k (keys g5) <-> k = id \/ In k (keys g))) as Hfin.
-  { intros g2 Hj Hin Hgen Hkeys. pose proof (join_stage3 E id g2 Hj Hin) as Hw3.
-    destruct (join_tail_spec E _ id Hw3) as [g5 [e [ms [Heq [Hw5 [Hg5 [Hm5 [Hl5 [Ha5 [He [Hph [_ Hms]]]]]]]]]]]].
+      (forall k, In k (keys g5) <-> k = id \/ In k (keys g)) /\
+      (g_phase g = PStable -> g_gen g5 = g_gen g ->
+       g_phase g5 = PStable /\ subs (g_members g5) = subs (g_members g) /\ g_assign g5 = g_assign g)) as Hfin.
+  { intros g2 Hj Hin Hgen Hkeys Hsame. pose proof (join_stage3 E id g2 Hj Hin) as Hw3.
+    destruct (join_tail_spec E _ id Hw3) as [g5 [e [ms [Heq [Hw5 [Hg5 [Hm5 [Hl5 [Ha5 [He [Hph [Hsame5 Hms]]]]]]]]]]]].
     exists g5, e, ms. split; [exact Heq|]. split; [exact Hw5|].
     assert (keys g5 = keys g2) as Hk.
     { unfold keys. rewrite Hm5. cbn [with_members g_members]. apply akeys_set_joingen. }
     cbn [with_members g_gen] in Hg5.
     split; [lia|]. split; [now rewrite Hk|]. split; [exact He|]. split; [exact Hph|].
-    split; [exact Hms|]. intros k. rewrite Hk. apply Hkeys. }
+    split; [exact Hms|]. split; [intros k; rewrite Hk; apply Hkeys|].
+    intros Hst Hgeq. rewrite Hg5 in Hgeq. destruct (Hsame Hst Hgeq) as [Hp2 [Hs2 Ha2]].
+    cbn [with_members g_phase] in Hsame5. rewrite (Hsame5 ltac:(congruence)).
+    cbn [with_members g_phase g_members g_assign]. rewrite subs_set_joingen. auto. }
   assert (forall k, In k (keys g1) <-> k = id \/ In k (keys g)) as Hk1.
   { intros k. unfold keys, g1. cbn. apply akeys_aset_in. }
   destruct Hg as [Hwf|Hnew].
@@ -305,6 +314,7 @@ Proof.
       * unfold keys. rewrite Hm2, akeys_reset. apply Hk1. now left.
       * rewrite Hg2. cbn. lia.
       * intros k. unfold keys. rewrite Hm2, akeys_reset. apply Hk1.
+      * intros _ Hgeq. rewrite Hg2 in Hgeq. cbn in Hgeq. lia.
     + (* no rebalance: the member (re)joins the running generation *)
       assert (g_phase g = PStable -> exists m0', alookup id (g_members g) = Some m0' /\ m_topics m1 = m_topics m0') as Hst.
       { intros Hst. rewrite (proj2 (phase_eqb_eq (g_phase g1) PStable)) in Ereb by (cbn; assumption).
@@ -320,7 +330,11 @@ Proof.
         -- exact Hin1.
         -- cbn. lia.
         -- exact Hk1.
-      * apply Hfin; [exact Hj1|exact Hin1|cbn; lia|exact Hk1].
+        -- intros Hst' _. exfalso. apply orb_true_iff in Epc as [H|H]; apply phase_eqb_eq in H; cbn in H; congruence.
+      * apply Hfin; [exact Hj1|exact Hin1|cbn; lia|exact Hk1|].
+        intros Hst' _. destruct (Hst Hst') as [m0' [Hl0' Ht0']].
+        cbn [g1 with_members g_phase g_members g_assign]. split; [exact Hst'|]. split; [|reflexivity].
+        eapply subs_aset_same; eauto.
   - (* the group did not exist: ensureGroup made an empty one *)
     subst g. assert (id = fresh) as Hid by reflexivity.
     assert (g_members g1 = [(fresh, m1)]) as Hm1 by reflexivity.
@@ -340,6 +354,7 @@ Proof.
     + unfold keys. rewrite Hm2. cbn [with_leader g_members]. rewrite akeys_reset. apply Hk1. now left.
     + rewrite Hg2. cbn. lia.
     + intros k. unfold keys. rewrite Hm2. cbn [with_leader g_members]. rewrite akeys_reset. apply Hk1.
+    + intros Hst' _. cbn in Hst'. discriminate.
 Qed.
 
 (* ---- updating one member without touching its subscription / joinGeneration ---- *)
@@ -646,6 +661,28 @@ Proof.
   rewrite (H e) by now left. cbn. apply IH. intros e' He'. apply H. now right.
 Qed.
 
+Lemma alookup_map_entry {A B} (f : Z * A -> Z * B) id l :
+  (forall e, fst (f e) = fst e) ->
+  alookup id (map f l) = option_map (fun v => snd (f (id, v))) (alookup id l).
+Proof.
+  intros Hf. induction l as [|[k v] l IH]; cbn; [reflexivity|].
+  destruct (f (k, v)) as [k' v'] eqn:Ef. pose proof (Hf (k, v)) as Hk. rewrite Ef in Hk. cbn in Hk. subst k'.
+  destruct (id =? k) eqn:Eq1; [|exact IH]. assert (id = k) by lia. subst. cbn. now rewrite Ef.
+Qed.
+
+Definition sessK (keep : bool) (s : Z) : Z := if keep then (if s >? 0 then s else 0) else 0.
+Definition pentry (keep : bool) (g : group) (e : Z * member) : Z * pmember :=
+  (fst e, mkPM (m_topics (snd e)) (sessK keep (m_session (snd e))) (m_hb (snd e)) (assignment_of g (fst e))).
+
+Lemma pview_eq E g :
+  pview E g = mkPG (g_phase g) (g_leader g) (g_gen g) (sessK (e_keep E) (g_rebto g))
+                   (map (pentry (e_keep E) g) (g_members g)).
+Proof.
+  unfold pview, store_clone, build, pentry, sessK. destruct (e_keep E); cbn.
+  - reflexivity.
+  - f_equal. rewrite map_map. reflexivity.
+Qed.
+
 Lemma restore_spec E g now :
   wf E g ->
   let r := restore (pview E g) now in
@@ -658,14 +695,9 @@ Lemma restore_spec E g now :
 Proof.
   intros Hwf. pose proof Hwf as [Hd Hne [l [Hl Hlin]] Hp Hj Hna Ha Hs Hr]. cbn zeta.
   set (keep := e_keep E).
-  set (sess := fun s : Z => if keep then (if s >? 0 then s else 0) else 0).
-  set (F := fun e : Z * member => (fst e, mkPM (m_topics (snd e)) (sess (m_session (snd e))) (m_hb (snd e)) (assignment_of g (fst e)))).
-  set (prebto := if keep then (if g_rebto g >? 0 then g_rebto g else 0) else 0).
-  assert (pview E g = mkPG (g_phase g) (g_leader g) (g_gen g) prebto (map F (g_members g))) as Hpv.
-  { unfold pview, store_clone, build. fold keep. subst prebto F sess. destruct keep; cbn.
-    - reflexivity.
-    - f_equal. rewrite map_map. reflexivity. }
-  rewrite Hpv. unfold restore. cbn [pg_phase pg_leader pg_gen pg_rebto pg_members].
+  rewrite (pview_eq E g). fold keep.
+  set (F := pentry keep g). set (prebto := sessK keep (g_rebto g)).
+  unfold restore. cbn [pg_phase pg_leader pg_gen pg_rebto pg_members].
   set (rebto := if prebto >? 0 then prebto else default_rebalance).
   set (G := fun e : Z * pmember => (fst e, mkMember (pm_topics (snd e)) (if pm_session (snd e) >? 0 then pm_session (snd e) else default_session) (pm_hb (snd e)) (g_gen g))).
   set (ms' := map G (map F (g_members g))).
@@ -687,14 +719,17 @@ Proof.
     - now rewrite HkF. }
   assert (subs ms' = subs (g_members g)) as Hsubs.
   { unfold ms', subs. rewrite !map_map. reflexivity. }
-  assert (0 < rebto) as Hrebto.
-  { subst rebto prebto. unfold default_rebalance. destruct keep; [|cbn; lia].
-    destruct (g_rebto g >? 0) eqn:E1; [rewrite E1; lia|lia]. }
-  assert (forall s, 0 < s -> keep = true -> (if sess s >? 0 then sess s else default_session) = s) as Hsess_keep.
-  { intros s H0 Hk'. subst sess. cbn. rewrite Hk'. destruct (s >? 0) eqn:E1; [now rewrite E1|lia]. }
+  assert (0 < rebto /\ sessK keep rebto = prebto) as [Hrebto Hrebto2].
+  { subst rebto prebto. unfold default_rebalance, sessK. destruct keep; [|cbn; lia].
+    destruct (g_rebto g >? 0) eqn:E1; [|lia]. rewrite E1. split; [lia|]. now rewrite E1. }
+  assert (forall s, 0 < s ->
+            let s' := (if sessK keep s >? 0 then sessK keep s else default_session) in
+            0 < s' /\ sessK keep s' = sessK keep s /\ (keep = true -> s' = s)) as Hsess.
+  { intros s H0. cbn zeta. unfold sessK, default_session. destruct keep.
+    - destruct (s >? 0) eqn:E1; [|lia]. rewrite E1. rewrite E1. repeat split; auto; lia.
+    - cbn. repeat split; auto; try lia; try discriminate. }
   assert (forall id, alookup id ms' = option_map (fun m => snd (G (F (id, m)))) (alookup id (g_members g))) as Hlk.
-  { intros id. unfold ms'. rewrite map_map. induction (g_members g) as [|[k m] ms IH]; cbn; [reflexivity|].
-    destruct (id =? k) eqn:E; [|exact IH]. assert (id = k) by lia. subst. reflexivity. }
+  { intros id. unfold ms'. rewrite map_map. apply (alookup_map_entry (fun x => G (F x))). intros e. reflexivity. }
   split; [|split; [|split; [reflexivity|split; [reflexivity|split; [reflexivity|split; [exact Hsubs|split; [exact Hasg|split]]]]]]].
   - constructor; unfold R; cbn [g_gen g_members g_leader g_assign g_phase g_rebto keys]; unfold keys; cbn [g_members].
     + now rewrite Hk.
@@ -706,35 +741,604 @@ Proof.
     + intros Hns. unfold asg. apply flat_assign_nil. intros e He.
       apply in_map_iff in He as [e0 [<- _]]. cbn. unfold assignment_of. now rewrite (Hna Hns).
     + intros Hst id Hin. rewrite Hk in Hin. fold R. rewrite (Hasg id Hin). rewrite Hsubs. now apply Ha.
-    + intros id m Hin. unfold ms' in Hin. rewrite map_map in Hin. apply in_map_iff in Hin as [e0 [He0 _]].
-      inversion He0; subst. cbn. unfold default_session. destruct (sess (m_session (snd e0)) >? 0) eqn:E1; lia.
+    + intros id m Hin. unfold ms' in Hin. rewrite map_map in Hin. apply in_map_iff in Hin as [[k0 m0] [He0 Hin0]].
+      inversion He0; subst. cbn. apply (Hsess (m_session m0)). eauto.
     + exact Hrebto.
   - (* what is stored is reproduced by storing the restored group *)
-    rewrite <- Hpv. unfold pview at 1. unfold store_clone, build. fold keep.
-    cbn [g_phase g_leader g_gen g_rebto g_members R].
-    rewrite Hpv.
-    assert (forall e, In e (g_members g) ->
-              (fst (G (F e)), mkPM (m_topics (snd (G (F e))))
-                                   (if m_session (snd (G (F e))) >? 0 then m_session (snd (G (F e))) else 0)
-                                   (m_hb (snd (G (F e)))) (assignment_of R (fst (G (F e))))) =
-              (fst e, mkPM (m_topics (snd e)) (if keep then sess (m_session (snd e)) else m_session (snd (G (F e))))
-                           (m_hb (snd e)) (assignment_of g (fst e)))) as Hentry.
-    { intros [k m] Hin. cbn [fst snd G F m_topics m_hb m_session pm_topics pm_hb pm_session].
-      rewrite Hasg by (unfold keys, akeys; apply in_map_iff; exists (k, m); auto).
-      f_equal. f_equal.
-      destruct keep eqn:Ek.
-      - specialize (Hs k m Hin). rewrite (Hsess_keep _ Hs eq_refl). subst sess. cbn.
-        destruct (m_session m >? 0) eqn:E1; [reflexivity|lia].
-      - destruct (_ >? 0); reflexivity. }
-    destruct keep eqn:Ek.
-    + f_equal.
-      * subst rebto prebto. destruct (g_rebto g >? 0) eqn:E1; [|lia]. rewrite E1. now rewrite E1.
-      * unfold ms'. rewrite !map_map. apply map_ext_in. intros e He. rewrite (Hentry e He). reflexivity.
-    + f_equal. unfold ms'. rewrite !map_map. apply map_ext_in. intros e He.
-      pose proof (Hentry e He) as H. cbn [fst snd] in H |- *. inversion H as [[H1 H2 H3 H4 H5]].
-      subst sess. cbn. reflexivity.
+    rewrite (pview_eq E R). fold keep.
+    change (g_phase R) with (g_phase g). change (g_leader R) with (g_leader g). change (g_gen R) with (g_gen g).
+    change (g_rebto R) with rebto. change (g_members R) with ms'.
+    rewrite Hrebto2. f_equal.
+    unfold ms'. rewrite !map_map. apply map_ext_in. intros [k m] Hin.
+    unfold pentry, G, F, pentry. cbn [fst snd m_topics m_hb m_session pm_topics pm_hb pm_session].
+    rewrite Hasg by (unfold keys, akeys; apply in_map_iff; exists (k, m); auto).
+    f_equal. f_equal. apply (Hsess (m_session m)). eauto.
   - intros id. fold R. unfold R. cbn [g_members]. rewrite Hlk. destruct (alookup id (g_members g)); reflexivity.
   - intros Hkeep id. fold R. unfold R. cbn [g_members]. rewrite Hlk.
     destruct (alookup id (g_members g)) as [m|] eqn:El; [|reflexivity]. cbn.
-    f_equal. apply Hsess_keep; [|exact Hkeep]. apply (Hs id m). now apply alookup_In.
+    f_equal. apply (Hsess (m_session m)); [|exact Hkeep]. apply (Hs id m). now apply alookup_In.
+Qed.
+
+(* ================= the global invariant ================= *)
+Definition inv (E : env) (s : st) : Prop :=
+  match s_store s with
+  | None => s_mem s = None
+  | Some pg => exists g, wf E g /\ pg = pview E g /\ (s_mem s = None \/ s_mem s = Some g)
+  end.
+
+Lemma load_spec E s now :
+  inv E s ->
+  (load s now = None /\ s_mem s = None /\ s_store s = None) \/
+  (exists g, load s now = Some g /\ wf E g /\ s_store s = Some (pview E g) /\
+             (s_mem s = Some g \/ (s_mem s = None /\ exists g0, wf E g0 /\ s_store s = Some (pview E g0) /\ g = restore (pview E g0) now))).
+Proof.
+  unfold inv, load. destruct (s_store s) as [pg|] eqn:Es.
+  - intros [g [Hwf [Hpg [Hm|Hm]]]]; rewrite Hm; right.
+    + destruct (restore_spec E g now Hwf) as [Hw [Hpv _]]. subst pg.
+      exists (restore (pview E g) now). split; [reflexivity|]. split; [exact Hw|]. split; [now rewrite Hpv|].
+      right. split; [reflexivity|]. exists g. auto.
+    + exists g. subst pg. auto.
+  - intros ->. left. auto.
+Qed.
+
+Lemma commit_group_eq E s g : wf E g -> commit_group E s g = mkSt (Some g) (Some (pview E g)) (s_off s).
+Proof.
+  intros Hwf. unfold commit_group, persist, set_mem. cbn.
+  destruct (g_members g) eqn:Em; [exfalso; now apply (wf_nonempty E g Hwf)|reflexivity].
+Qed.
+
+Lemma inv_mem E g off : wf E g -> inv E (mkSt (Some g) (Some (pview E g)) off).
+Proof. intros H. unfold inv. cbn. exists g. auto. Qed.
+
+Lemma inv_none E off : inv E (mkSt None None off).
+Proof. reflexivity. Qed.
+
+(* the group as seen by the next request does not depend on when it is loaded,
+   as far as generation / members / subscriptions / assignments are concerned *)
+Definition same_view (g1 g2 : group) : Prop :=
+  g_gen g1 = g_gen g2 /\ g_phase g1 = g_phase g2 /\ g_leader g1 = g_leader g2 /\
+  subs (g_members g1) = subs (g_members g2) /\
+  (forall id, In id (keys g1) -> assignment_of g1 id = assignment_of g2 id).
+
+Lemma same_view_refl g : same_view g g.
+Proof. unfold same_view. auto 10. Qed.
+
+Lemma keys_subs g : keys g = akeys (subs (g_members g)).
+Proof. unfold keys. now rewrite akeys_subs. Qed.
+
+Lemma same_view_keys g1 g2 : same_view g1 g2 -> keys g1 = keys g2.
+Proof. intros [_ [_ [_ [H _]]]]. rewrite !keys_subs. now rewrite H. Qed.
+
+Lemma same_view_trans g1 g2 g3 : same_view g1 g2 -> same_view g2 g3 -> same_view g1 g3.
+Proof.
+  intros H12 H23. pose proof (same_view_keys _ _ H12) as Hk.
+  destruct H12 as [A1 [A2 [A3 [A4 A5]]]], H23 as [B1 [B2 [B3 [B4 B5]]]].
+  repeat split; try congruence. intros id Hin. rewrite A5 by assumption. apply B5. now rewrite <- Hk.
+Qed.
+
+Lemma same_view_sym g1 g2 : same_view g1 g2 -> same_view g2 g1.
+Proof.
+  intros H. pose proof (same_view_keys _ _ H) as Hk. destruct H as [A1 [A2 [A3 [A4 A5]]]].
+  repeat split; try congruence. intros id Hin. symmetry. apply A5. now rewrite Hk.
+Qed.
+
+Lemma restore_same_view E g now : wf E g -> same_view (restore (pview E g) now) g.
+Proof.
+  intros Hwf. destruct (restore_spec E g now Hwf) as [_ [_ [H1 [H2 [H3 [H4 [H5 _]]]]]]].
+  repeat split; auto. intros id Hin. apply H5. rewrite keys_subs in *. now rewrite <- H4.
+Qed.
+
+Lemma cur_same_view E s n1 n2 g1 g2 :
+  inv E s -> cur s n1 = Some g1 -> cur s n2 = Some g2 -> same_view g1 g2.
+Proof.
+  intros Hinv H1 H2. unfold cur in *.
+  destruct (load_spec E s n1 Hinv) as [[Hn _]|[g [Hl [Hwf [Hst Hc]]]]]; [congruence|].
+  destruct (load_spec E s n2 Hinv) as [[Hn _]|[g' [Hl' [Hwf' [Hst' Hc']]]]]; [congruence|].
+  rewrite H1 in Hl. rewrite H2 in Hl'. inversion Hl; inversion Hl'; subst g g'. clear Hl Hl'.
+  destruct Hc as [Hm|[Hm [g0 [Hw0 [Hs0 Hr0]]]]]; destruct Hc' as [Hm'|[Hm' [g0' [Hw0' [Hs0' Hr0']]]]]; try congruence.
+  - assert (g1 = g2) by congruence. subst. apply same_view_refl.
+  - rewrite Hs0 in Hs0'. inversion Hs0' as [Heq]. subst g1 g2. rewrite <- Heq.
+    eapply same_view_trans; [apply restore_same_view; exact Hw0|].
+    apply same_view_sym. apply restore_same_view. exact Hw0.
+Qed.
+
+Lemma apply_off E s o : s_off (fst (apply E s o)) = s_off s.
+Proof. destruct o; cbn; try reflexivity. unfold commit_group, persist. cbn. destruct (g_members g); reflexivity. Qed.
+
+(* what one step does, seen through the invariant *)
+Definition rel_step (E : env) (s s' : st) : Prop :=
+  inv E s' /\
+  ((s_mem s' = None /\ s_store s' = None) \/
+   (s_mem s' = None /\ s_store s' = s_store s) \/
+   (exists g', s_mem s' = Some g' /\ wf E g' /\ s_store s' = Some (pview E g') /\
+               forall now g, cur s now = Some g -> g_gen g <= g_gen g')).
+
+Lemma keep_rel E s g now r :
+  inv E s -> load s now = Some g -> rel_step E s (fst (apply E s (Keep g r))).
+Proof.
+  intros Hinv Hl. destruct (load_spec E s now Hinv) as [[Hn _]|[g0 [Hl0 [Hwf [Hst _]]]]]; [congruence|].
+  rewrite Hl in Hl0. inversion Hl0; subst g0. cbn. unfold set_mem. split.
+  - unfold inv. cbn. rewrite Hst. exists g. auto.
+  - right. right. exists g. cbn. split; [reflexivity|]. split; [exact Hwf|]. split; [exact Hst|]. intros n g1 Hc.
+    assert (same_view g1 g) as Hv by (eapply cur_same_view; eauto). destruct Hv as [Hv _]. lia.
+Qed.
+
+Lemma save_rel E s g' r :
+  inv E s -> wf E g' -> (forall now g, cur s now = Some g -> g_gen g <= g_gen g') ->
+  rel_step E s (fst (apply E s (Save g' r))).
+Proof.
+  intros Hinv Hwf Hgen. cbn. rewrite commit_group_eq by assumption. split; [now apply inv_mem|].
+  right. right. exists g'. cbn. auto.
+Qed.
+
+Lemma gone_rel E s r : rel_step E s (fst (apply E s (Gone r))).
+Proof. cbn. split; [apply inv_none|]. left. auto. Qed.
+
+Lemma cur_gen_le E s now g n1 g1 :
+  inv E s -> load s now = Some g -> cur s n1 = Some g1 -> g_gen g1 = g_gen g.
+Proof. intros Hinv Hl Hc. apply (cur_same_view E s n1 now g1 g Hinv Hc Hl). Qed.
+
+Lemma step_rel E s o : inv E s -> rel_step E s (fst (step E s o)).
+Proof.
+  intros Hinv. destruct o as [mid fresh sess reb topics now|mid gen now|mid gen now|mid now|mid gen t p off now|now|]; cbn [step].
+  - (* Join *)
+    destruct (load_spec E s now Hinv) as [[Hl [Hm Hs]]|[g [Hl [Hwf [Hst _]]]]]; rewrite Hl.
+    + destruct (join_g_spec E new_group mid fresh sess reb topics now (or_intror eq_refl)) as [g5 [e [ms [Heq [Hw5 _]]]]].
+      rewrite Heq. apply save_rel; auto. intros n g Hc. unfold cur in Hc.
+      destruct (load_spec E s n Hinv) as [[Hn _]|[g0 [Hl0 [_ [Hst0 _]]]]]; congruence.
+    + destruct (join_g_spec E g mid fresh sess reb topics now (or_introl Hwf)) as [g5 [e [ms [Heq [Hw5 [Hge _]]]]]].
+      rewrite Heq. apply save_rel; auto. intros n g1 Hc. rewrite (cur_gen_le E s now g n g1 Hinv Hl Hc). exact Hge.
+  - (* Sync *)
+    destruct (load_spec E s now Hinv) as [[Hl [Hm Hs]]|[g [Hl [Hwf [Hst _]]]]]; rewrite Hl.
+    + cbn. split; [exact Hinv|]. right. left. auto.
+    + pose proof (sync_g_spec E g mid gen Hwf) as Hp. destruct (sync_g E g mid gen) as [g' r|g' r|r]; cbn in Hp.
+      * destruct r; try contradiction. destruct Hp as [-> _]. eapply keep_rel; eauto.
+      * destruct r; try contradiction. destruct Hp as [Hw' [_ [_ [_ [_ [_ [Hg' _]]]]]]].
+        apply save_rel; auto. intros n g1 Hc. rewrite (cur_gen_le E s now g n g1 Hinv Hl Hc). lia.
+      * contradiction.
+  - (* Heartbeat *)
+    destruct (load_spec E s now Hinv) as [[Hl [Hm Hs]]|[g [Hl [Hwf [Hst _]]]]]; rewrite Hl.
+    + cbn. split; [exact Hinv|]. right. left. auto.
+    + pose proof (heartbeat_g_spec E g mid gen now Hwf) as Hp. destruct (heartbeat_g g mid gen now) as [g' r|g' r|r]; cbn in Hp.
+      * destruct r; try contradiction. destruct Hp as [-> _]. eapply keep_rel; eauto.
+      * destruct r; try contradiction. destruct Hp as [Hw' [_ [_ [Hg' _]]]].
+        apply save_rel; auto. intros n g1 Hc. rewrite (cur_gen_le E s now g n g1 Hinv Hl Hc). lia.
+      * contradiction.
+  - (* Leave *)
+    destruct (load_spec E s now Hinv) as [[Hl [Hm Hs]]|[g [Hl [Hwf [Hst _]]]]]; rewrite Hl.
+    + cbn. split; [exact Hinv|]. right. left. auto.
+    + pose proof (leave_g_spec E g mid now Hwf) as Hp. destruct (leave_g g mid now) as [g' r|g' r|r]; cbn in Hp.
+      * destruct r; try contradiction. destruct Hp as [-> _]. eapply keep_rel; eauto.
+      * destruct r; try contradiction. destruct Hp as [Hw' [_ [_ [Hg' _]]]].
+        apply save_rel; auto. intros n g1 Hc. rewrite (cur_gen_le E s now g n g1 Hinv Hl Hc). lia.
+      * apply gone_rel.
+  - (* Commit *)
+    destruct (load_spec E s now Hinv) as [[Hl [Hm Hs]]|[g [Hl [Hwf [Hst _]]]]]; rewrite Hl.
+    + cbn. split; [exact Hinv|]. right. left. auto.
+    + cbn. split.
+      * unfold inv. cbn. rewrite Hst. exists g. auto.
+      * right. right. exists g. cbn. split; [reflexivity|]. split; [exact Hwf|]. split; [exact Hst|]. intros n g1 Hc.
+        rewrite (cur_gen_le E s now g n g1 Hinv Hl Hc). lia.
+  - (* Cleanup *)
+    destruct (s_mem s) as [g|] eqn:Hm.
+    + assert (load s now = Some g) as Hl by (unfold load; now rewrite Hm).
+      destruct (load_spec E s now Hinv) as [[Hn _]|[g0 [Hl0 [Hwf [Hst _]]]]]; [congruence|].
+      rewrite Hl in Hl0. inversion Hl0; subst g0.
+      pose proof (cleanup_g_spec E g now Hwf) as Hp. destruct (cleanup_g g now) as [[g' r|g' r|r]|]; cbn in Hp.
+      * contradiction.
+      * destruct Hp as [_ [Hw' [Hg' _]]]. apply save_rel; auto.
+        intros n g1 Hc. rewrite (cur_gen_le E s now g n g1 Hinv Hl Hc). lia.
+      * apply gone_rel.
+      * cbn. split; [exact Hinv|]. right. right. exists g. split; [exact Hm|]. split; [exact Hwf|]. split; [exact Hst|].
+        intros n g1 Hc. rewrite (cur_gen_le E s now g n g1 Hinv Hl Hc). lia.
+    + cbn. split; [exact Hinv|]. right. left. auto.
+  - (* Failover *)
+    cbn. split.
+    + unfold inv in *. cbn. destruct (s_store s) as [pg|]; [|reflexivity].
+      destruct Hinv as [g [Hw [Hp _]]]. exists g. auto.
+    + right. left. auto.
+Qed.
+
+Lemma step_inv E s o : inv E s -> inv E (fst (step E s o)).
+Proof. intros H. apply (step_rel E s o H). Qed.
+
+Lemma run_from_inv E s h : inv E s -> inv E (run_from E s h).
+Proof.
+  revert s; induction h as [|o h IH]; intros s H; cbn; [exact H|]. apply IH. now apply step_inv.
+Qed.
+
+Lemma run_inv E h : inv E (run E h).
+Proof. apply run_from_inv. reflexivity. Qed.
+
+(* ================= C12 ================= *)
+(* the assignment a Stable group holds is a partition of the subscribed topics' partitions *)
+Definition is_partition (E : env) (g : group) : Prop :=
+  let sm := subs (g_members g) in
+  (forall id t ps p, In id (keys g) -> In (t, ps) (assignment_of g id) -> In p ps ->
+     subscribes sm id t = true /\ In p (parts_of E t)) /\
+  (forall id0 t p, In id0 (keys g) -> subscribes sm id0 t = true -> In p (parts_of E t) ->
+     exists id ps, In id (keys g) /\ subscribes sm id t = true /\ In (t, ps) (assignment_of g id) /\ In p ps) /\
+  (forall a b t psa psb p, NoDup (parts_of E t) -> In a (keys g) -> In b (keys g) ->
+     In (t, psa) (assignment_of g a) -> In p psa -> In (t, psb) (assignment_of g b) -> In p psb -> a = b).
+
+Lemma stable_partition E g : wf E g -> g_phase g = PStable -> is_partition E g.
+Proof.
+  intros Hwf Hst. pose proof (wf_assign E g Hwf Hst) as Ha. unfold is_partition. cbn zeta.
+  set (sm := subs (g_members g)).
+  assert (akeys sm = keys g) as Hk by (unfold sm, keys; apply akeys_subs).
+  split; [|split].
+  - intros id t ps p Hin H Hp. rewrite Ha in H by assumption.
+    destruct (assign_for_sound E sm id t ps p H Hp) as [_ [H2 H3]]. auto.
+  - intros id0 t p Hin Hs Hp. rewrite <- Hk in Hin.
+    destruct (assign_for_total E sm id0 t p Hin Hs Hp) as [id [ps [H1 H2]]].
+    destruct (assign_for_sound E sm id t ps p H1 H2) as [H3 [H4 _]]. rewrite Hk in H3.
+    exists id, ps. rewrite Ha by assumption. auto.
+  - intros a b t psa psb p Hnd Hina Hinb H1 H2 H3 H4. rewrite Ha in H1, H3 by assumption.
+    eapply assign_for_unique; eauto.
+Qed.
+
+Lemma sync_success_state E s mid gen now s' a :
+  inv E s -> step E s (Sync mid gen now) = (s', RSync NONE a) ->
+  exists g, s_mem s' = Some g /\ wf E g /\ g_phase g = PStable /\ g_gen g = gen /\
+            In mid (keys g) /\ a = assignment_of g mid /\ a = assign_for E (subs (g_members g)) mid.
+Proof.
+  intros Hinv. cbn [step]. intros H.
+  destruct (load_spec E s now Hinv) as [[Hl _]|[g [Hl [Hwf [Hst _]]]]]; rewrite Hl in H.
+  - inversion H. 
+  - pose proof (sync_g_spec E g mid gen Hwf) as Hp. destruct (sync_g E g mid gen) as [g' r|g' r|r]; cbn in Hp, H.
+    + destruct r; try contradiction. destruct Hp as [_ [Hne _]]. inversion H; subst. congruence.
+    + destruct r; try contradiction. rewrite commit_group_eq in H by tauto. inversion H; subst.
+      destruct Hp as [Hw' [_ [Hg [Hin [_ [Hph [Hg' [Hm' [_ [Ha1 [Ha2 _]]]]]]]]]]].
+      exists g'. cbn. split; [reflexivity|]. split; [exact Hw'|]. split; [exact Hph|]. split; [lia|].
+      split; [unfold keys; now rewrite Hm'|]. split; [exact Ha2|]. now rewrite Hm'.
+    + contradiction.
+Qed.
+
+Lemma sync_success E h mid gen now s' a :
+  step E (run E h) (Sync mid gen now) = (s', RSync NONE a) ->
+  exists g, s_mem s' = Some g /\ wf E g /\ g_phase g = PStable /\ g_gen g = gen /\
+            In mid (keys g) /\ a = assignment_of g mid /\ a = assign_for E (subs (g_members g)) mid.
+Proof. apply sync_success_state. apply run_inv. Qed.
+
+Lemma c12_assignment_partition E h mid gen now s' a :
+  step E (run E h) (Sync mid gen now) = (s', RSync NONE a) ->
+  exists g, s_mem s' = Some g /\ g_gen g = gen /\ In mid (keys g) /\ a = assignment_of g mid /\
+            (forall id, In id (keys g) -> assignment_of g id = assign_for E (subs (g_members g)) id) /\
+            is_partition E g.
+Proof.
+  intros H. destruct (sync_success E h mid gen now s' a H) as [g [Hm [Hwf [Hst [Hg [Hin [Ha _]]]]]]].
+  exists g. split; [exact Hm|]. split; [exact Hg|]. split; [exact Hin|]. split; [exact Ha|].
+  split; [apply (wf_assign E g Hwf Hst)|apply (stable_partition E g Hwf Hst)].
+Qed.
+
+(* within one generation of a group that keeps existing, a Stable group keeps its members,
+   subscriptions and assignment: every sync of that generation reads the same map *)
+Definition stable_same (g g' : group) : Prop :=
+  g_phase g' = PStable /\ subs (g_members g') = subs (g_members g) /\
+  forall id, In id (keys g) -> assignment_of g' id = assignment_of g id.
+
+Lemma stable_same_of_view g g' : g_phase g = PStable -> same_view g g' -> stable_same g g'.
+Proof.
+  intros Hst [H1 [H2 [H3 [H4 H5]]]]. split; [congruence|]. split; [congruence|].
+  intros id Hin. symmetry. now apply H5.
+Qed.
+
+Lemma c12_step_same_generation E s o n0 n1 g g' :
+  inv E s -> cur s n0 = Some g -> g_phase g = PStable ->
+  cur (fst (step E s o)) n1 = Some g' -> g_gen g' = g_gen g -> stable_same g g'.
+Proof.
+  intros Hinv Hc Hst Hc' Hgen.
+  assert (forall now gl, load s now = Some gl -> same_view g gl) as Hview.
+  { intros now gl Hl. eapply cur_same_view; eauto. }
+  assert (forall gl, same_view g gl -> forall g2, stable_same gl g2 -> stable_same g g2) as Htr.
+  { intros gl Hv g2 [P1 [P2 P3]]. pose proof (same_view_keys _ _ Hv) as Hk.
+    destruct Hv as [V1 [V2 [V3 [V4 V5]]]]. split; [exact P1|]. split; [congruence|].
+    intros id Hin. rewrite P3 by (now rewrite <- Hk). symmetry. now apply V5. }
+  assert (forall gl, same_view g gl -> g_phase gl = PStable) as Hstl by (intros gl [_ [V2 _]]; congruence).
+  assert (forall s1, s_mem s1 = Some g' \/ True -> True) as _ by auto.
+  pose proof (step_inv E s o Hinv) as Hinv'.
+  (* the new view when the new state holds the group in memory *)
+  assert (forall s1 gm, s_mem s1 = Some gm -> cur s1 n1 = Some g' -> g' = gm) as Hmem.
+  { intros s1 gm Hm Hcc. unfold cur, load in Hcc. rewrite Hm in Hcc. congruence. }
+  destruct o as [mid fresh sess reb topics now|mid gen now|mid gen now|mid now|mid gen t p off now|now|]; cbn [step] in Hc', Hinv'.
+  - destruct (load_spec E s now Hinv) as [[Hl _]|[gl [Hl [Hwf [Hstore _]]]]].
+    { unfold cur in Hc. destruct (load_spec E s n0 Hinv) as [[Hn _]|[g0 [Hl0 [_ [Hst0 _]]]]]; [congruence|].
+      destruct (load_spec E s now Hinv) as [[_ [_ Hs0]]|[g1 [Hl1 _]]]; congruence. }
+    rewrite Hl in Hc'. pose proof (Hview _ _ Hl) as Hv.
+    destruct (join_g_spec E gl mid fresh sess reb topics now (or_introl Hwf)) as [g5 [e [ms [Heq [Hw5 [_ [_ [_ [_ [_ [_ Hsame]]]]]]]]]]].
+    rewrite Heq in Hc'. cbn in Hc'. rewrite commit_group_eq in Hc' by assumption.
+    assert (g' = g5) by (first [now inversion Hc' | eapply Hmem; [|exact Hc']; reflexivity]). subst g5.
+    destruct Hv as [V1 V]. destruct (Hsame (Hstl gl (conj V1 V)) ltac:(lia)) as [S1 [S2 S3]].
+    apply (Htr gl (conj V1 V)). split; [exact S1|]. split; [exact S2|]. intros id _. unfold assignment_of. now rewrite S3.
+  - destruct (load_spec E s now Hinv) as [[Hl _]|[gl [Hl [Hwf [Hstore _]]]]]; rewrite Hl in Hc'.
+    { unfold cur in *. cbn in Hc'. destruct (load_spec E s n0 Hinv) as [[Hn _]|[g0 [Hl0 [_ [Hst0 _]]]]]; [congruence|].
+      destruct (load_spec E s now Hinv) as [[_ [_ Hs0]]|[g1 [Hl1 _]]]; congruence. }
+    pose proof (Hview _ _ Hl) as Hv. pose proof (sync_g_spec E gl mid gen Hwf) as Hp.
+    destruct (sync_g E gl mid gen) as [g2 r|g2 r|r]; cbn in Hp, Hc'.
+    + destruct r; try contradiction. destruct Hp as [-> _].
+      assert (g' = gl) by (first [now inversion Hc' | eapply Hmem; [|exact Hc']; reflexivity]). subst. now apply stable_same_of_view.
+    + destruct r; try contradiction. destruct Hp as [Hw2 [_ [_ [_ [_ [_ [_ [_ [_ [_ [_ [Hsame _]]]]]]]]]]]].
+      rewrite commit_group_eq in Hc' by assumption.
+      assert (g' = g2) by (first [now inversion Hc' | eapply Hmem; [|exact Hc']; reflexivity]). subst.
+      rewrite (Hsame (Hstl _ Hv)). now apply stable_same_of_view.
+    + contradiction.
+  - destruct (load_spec E s now Hinv) as [[Hl _]|[gl [Hl [Hwf [Hstore _]]]]]; rewrite Hl in Hc'.
+    { unfold cur in *. cbn in Hc'. destruct (load_spec E s n0 Hinv) as [[Hn _]|[g0 [Hl0 [_ [Hst0 _]]]]]; [congruence|].
+      destruct (load_spec E s now Hinv) as [[_ [_ Hs0]]|[g1 [Hl1 _]]]; congruence. }
+    pose proof (Hview _ _ Hl) as Hv. pose proof (heartbeat_g_spec E gl mid gen now Hwf) as Hp.
+    destruct (heartbeat_g gl mid gen now) as [g2 r|g2 r|r]; cbn in Hp, Hc'.
+    + destruct r; try contradiction. destruct Hp as [-> _].
+      assert (g' = gl) by (first [now inversion Hc' | eapply Hmem; [|exact Hc']; reflexivity]). subst. now apply stable_same_of_view.
+    + destruct r; try contradiction. destruct Hp as [Hw2 [_ [_ [_ [P1 [_ [P2 [P3 _]]]]]]]].
+      rewrite commit_group_eq in Hc' by assumption.
+      assert (g' = g2) by (first [now inversion Hc' | eapply Hmem; [|exact Hc']; reflexivity]). subst.
+      apply (Htr gl Hv). split; [rewrite P1; now apply Hstl|]. split; [exact P3|].
+      intros id _. unfold assignment_of. now rewrite P2.
+    + contradiction.
+  - destruct (load_spec E s now Hinv) as [[Hl _]|[gl [Hl [Hwf [Hstore _]]]]]; rewrite Hl in Hc'.
+    { unfold cur in *. cbn in Hc'. destruct (load_spec E s n0 Hinv) as [[Hn _]|[g0 [Hl0 [_ [Hst0 _]]]]]; [congruence|].
+      destruct (load_spec E s now Hinv) as [[_ [_ Hs0]]|[g1 [Hl1 _]]]; congruence. }
+    pose proof (Hview _ _ Hl) as Hv. pose proof (leave_g_spec E gl mid now Hwf) as Hp.
+    destruct (leave_g gl mid now) as [g2 r|g2 r|r]; cbn in Hp, Hc'.
+    + destruct r; try contradiction. destruct Hp as [-> _].
+      assert (g' = gl) by (first [now inversion Hc' | eapply Hmem; [|exact Hc']; reflexivity]). subst. now apply stable_same_of_view.
+    + destruct r; try contradiction. destruct Hp as [Hw2 [_ [_ [P1 _]]]].
+      rewrite commit_group_eq in Hc' by assumption.
+      assert (g' = g2) by (first [now inversion Hc' | eapply Hmem; [|exact Hc']; reflexivity]). subst.
+      destruct Hv as [V1 _]. lia.
+    + unfold cur, load in Hc'. cbn in Hc'. discriminate.
+  - destruct (load_spec E s now Hinv) as [[Hl _]|[gl [Hl [Hwf [Hstore _]]]]]; rewrite Hl in Hc'.
+    { unfold cur in *. cbn in Hc'. destruct (load_spec E s n0 Hinv) as [[Hn _]|[g0 [Hl0 [_ [Hst0 _]]]]]; [congruence|].
+      destruct (load_spec E s now Hinv) as [[_ [_ Hs0]]|[g1 [Hl1 _]]]; congruence. }
+    pose proof (Hview _ _ Hl) as Hv. cbn in Hc'.
+    assert (g' = gl) by (first [now inversion Hc' | eapply Hmem; [|exact Hc']; reflexivity]). subst. now apply stable_same_of_view.
+  - destruct (s_mem s) as [gm|] eqn:Hm.
+    + assert (load s now = Some gm) as Hl by (unfold load; now rewrite Hm).
+      destruct (load_spec E s now Hinv) as [[Hn _]|[g0 [Hl0 [Hwf [Hstore _]]]]]; [congruence|].
+      rewrite Hl in Hl0. inversion Hl0; subst g0.
+      pose proof (Hview _ _ Hl) as Hv. pose proof (cleanup_g_spec E gm now Hwf) as Hp.
+      destruct (cleanup_g gm now) as [[g2 r|g2 r|r]|]; cbn in Hp, Hc'.
+      * contradiction.
+      * destruct Hp as [_ [Hw2 [P1 _]]]. rewrite commit_group_eq in Hc' by assumption.
+        assert (g' = g2) by (first [now inversion Hc' | eapply Hmem; [|exact Hc']; reflexivity]). subst. destruct Hv as [V1 _]. lia.
+      * unfold cur, load in Hc'. cbn in Hc'. discriminate.
+      * assert (g' = gm) by (first [now inversion Hc' | eapply Hmem; [exact Hm|exact Hc']]). subst. now apply stable_same_of_view.
+    + cbn in Hc'. apply stable_same_of_view; [exact Hst|]. eapply cur_same_view; eauto.
+  - (* Failover: the new coordinator restores what was persisted *)
+    cbn in Hc'. unfold cur, load in Hc'. cbn in Hc'.
+    unfold inv in Hinv. destruct (s_store s) as [pg|] eqn:Es; [|discriminate].
+    destruct Hinv as [g0 [Hw0 [Hpg Hmm]]]. inversion Hc'; subst g' pg.
+    assert (same_view g g0) as Hv0.
+    { unfold cur, load in Hc. destruct Hmm as [Hm|Hm]; rewrite Hm in Hc.
+      - rewrite Es in Hc. inversion Hc. now apply restore_same_view.
+      - inversion Hc. apply same_view_refl. }
+    apply stable_same_of_view; [exact Hst|].
+    eapply same_view_trans; [exact Hv0|]. apply same_view_sym. now apply restore_same_view.
+Qed.
+
+(* ================= C13 ================= *)
+Definition current (s : st) (now mid gen : Z) : Prop :=
+  exists g, cur s now = Some g /\ In mid (keys g) /\ gen = g_gen g.
+
+Definition reply_err (r : reply) : Z :=
+  match r with RJoin e _ _ _ _ => e | RSync e _ => e | RErr e => e | RNone => NONE end.
+
+Lemma c13_fenced E s o mid gen now :
+  (o = Sync mid gen now \/ o = Heartbeat mid gen now \/ exists t p off, o = Commit mid gen t p off now) ->
+  ~ current s now mid gen ->
+  reply_err (snd (step E s o)) <> NONE /\ s_off (fst (step E s o)) = s_off s.
+Proof.
+  intros Ho Hnc. unfold current, cur in Hnc.
+  destruct Ho as [->|[->|[t [p [off ->]]]]]; cbn [step]; destruct (load s now) as [g|] eqn:Hl;
+    try (cbn; split; [discriminate|reflexivity]).
+  - split; [|apply apply_off]. unfold sync_g.
+    destruct (gen =? g_gen g) eqn:Eg; cbn [negb]; [|cbn; discriminate].
+    destruct (amem mid (g_members g)) eqn:Em; cbn [negb]; [|cbn; discriminate].
+    exfalso. apply Hnc. exists g. split; [reflexivity|]. split; [now apply amem_In|lia].
+  - split; [|apply apply_off]. unfold heartbeat_g.
+    destruct (alookup mid (g_members g)) as [m|] eqn:El; [|cbn; discriminate].
+    destruct (gen =? g_gen g) eqn:Eg; cbn [negb]; [|cbn; discriminate].
+    exfalso. apply Hnc. exists g. split; [reflexivity|]. split; [|lia].
+    apply amem_In. unfold amem. now rewrite El.
+  - unfold commit_err.
+    destruct (amem mid (g_members g)) eqn:Em; cbn [negb]; [|cbn; split; [discriminate|reflexivity]].
+    destruct (gen =? g_gen g) eqn:Eg; cbn [negb]; [|cbn; split; [discriminate|reflexivity]].
+    exfalso. apply Hnc. exists g. split; [reflexivity|]. split; [now apply amem_In|lia].
+Qed.
+
+(* offsets change only through an accepted commit *)
+Lemma c13_offsets_only_by_commit E s o :
+  s_off (fst (step E s o)) <> s_off s ->
+  exists mid gen t p off now, o = Commit mid gen t p off now /\ current s now mid gen /\
+                              snd (step E s o) = RErr NONE.
+Proof.
+  destruct o as [mid fresh sess reb topics now|mid gen now|mid gen now|mid now|mid gen t p off now|now|]; cbn [step]; intros H.
+  - exfalso. apply H. apply apply_off.
+  - exfalso. apply H. destruct (load s now); [apply apply_off|reflexivity].
+  - exfalso. apply H. destruct (load s now); [apply apply_off|reflexivity].
+  - exfalso. apply H. destruct (load s now); [apply apply_off|reflexivity].
+  - destruct (load s now) as [g|] eqn:Hl; [|exfalso; now apply H].
+    cbn in H. unfold commit_err in *. 
+    destruct (amem mid (g_members g)) eqn:Em; cbn [negb] in *; [|exfalso; now apply H].
+    destruct (gen =? g_gen g) eqn:Eg; cbn [negb] in *; [|exfalso; now apply H].
+    exists mid, gen, t, p, off, now. split; [reflexivity|]. split; [|reflexivity].
+    exists g. split; [exact Hl|]. split; [now apply amem_In|lia].
+  - exfalso. apply H. destruct (s_mem s); [|reflexivity]. destruct (cleanup_g g now); [apply apply_off|reflexivity].
+  - exfalso. now apply H.
+Qed.
+
+Lemma c13_generation_monotone_step E s o n0 n1 g g' :
+  inv E s -> cur s n0 = Some g -> cur (fst (step E s o)) n1 = Some g' -> g_gen g <= g_gen g'.
+Proof.
+  intros Hinv Hc Hc'. destruct (step_rel E s o Hinv) as [Hinv' [[Hm Hs]|[[Hm Hs]|[g2 [Hm [Hw [Hs Hle]]]]]]].
+  - unfold cur, load in Hc'. rewrite Hm, Hs in Hc'. discriminate.
+  - (* nothing in memory, the store untouched *)
+    unfold cur, load in Hc'. rewrite Hm, Hs in Hc'.
+    unfold inv in Hinv. destruct (s_store s) as [pg|] eqn:Es; [|discriminate].
+    destruct Hinv as [g0 [Hw0 [Hpg Hmm]]]. inversion Hc'; subst g' pg.
+    assert (same_view g g0) as Hv0.
+    { unfold cur, load in Hc. destruct Hmm as [Hm0|Hm0]; rewrite Hm0 in Hc.
+      - rewrite Es in Hc. inversion Hc. now apply restore_same_view.
+      - inversion Hc. apply same_view_refl. }
+    destruct Hv0 as [V1 _]. destruct (restore_same_view E g0 n1 Hw0) as [R1 _]. lia.
+  - unfold cur, load in Hc'. rewrite Hm in Hc'. inversion Hc'; subst. eapply Hle; eauto.
+Qed.
+
+(* along any history segment during which the group never disappears *)
+Fixpoint alive_all (E : env) (s : st) (h : list op) : Prop :=
+  match h with
+  | [] => True
+  | o :: h' => (exists n g, cur (fst (step E s o)) n = Some g) /\ alive_all E (fst (step E s o)) h'
+  end.
+
+Lemma c13_generation_monotone E s h n0 n1 g g' :
+  inv E s -> alive_all E s h -> cur s n0 = Some g -> cur (run_from E s h) n1 = Some g' -> g_gen g <= g_gen g'.
+Proof.
+  revert s g n0; induction h as [|o h IH]; intros s g n0 Hinv Hal Hc Hc'; cbn in *.
+  - assert (same_view g g') as [V _] by (eapply cur_same_view; eauto). lia.
+  - destruct Hal as [[n [g1 Hc1]] Hal]. 
+    pose proof (c13_generation_monotone_step E s o n0 n g g1 Hinv Hc Hc1).
+    pose proof (IH _ g1 n (step_inv E s o Hinv) Hal Hc1 Hc'). lia.
+Qed.
+
+(* the generation a join reply reports is the generation of the group afterwards *)
+Lemma join_reply E s mid fresh sess reb topics now s' e gen ld id ms :
+  inv E s -> step E s (Join mid fresh sess reb topics now) = (s', RJoin e gen ld id ms) ->
+  exists g', s_mem s' = Some g' /\ wf E g' /\ gen = g_gen g' /\ ld = g_leader g' /\ In id (keys g') /\
+             (e = NONE \/ e = REBALANCE_IN_PROGRESS) /\ (e = NONE <-> g_phase g' <> PPreparing) /\
+             (ms <> [] -> e = NONE /\ ld = Some id).
+Proof.
+  intros Hinv H. cbn [step] in H.
+  assert (exists g, (wf E g \/ g = new_group) /\ (match load s now with Some g => g | None => new_group end) = g) as [g [Hg Hgl]].
+  { destruct (load_spec E s now Hinv) as [[Hl _]|[g [Hl [Hwf _]]]]; rewrite Hl; eauto. }
+  rewrite Hgl in H.
+  destruct (join_g_spec E g mid fresh sess reb topics now Hg) as [g5 [e5 [ms5 [Heq [Hw5 [_ [Hin [He [Hph [Hms _]]]]]]]]]].
+  rewrite Heq in H. cbn in H. rewrite commit_group_eq in H by assumption. inversion H; subst.
+  exists g5. cbn. split; [reflexivity|]. split; [exact Hw5|]. split; [reflexivity|]. split; [reflexivity|].
+  split; [exact Hin|]. split; [exact He|]. split; [exact Hph|]. exact Hms.
+Qed.
+
+(* ================= C14 ================= *)
+Lemma c14_join_success E s mid fresh sess reb topics now s' gen ld id ms :
+  inv E s -> step E s (Join mid fresh sess reb topics now) = (s', RJoin NONE gen ld id ms) ->
+  exists g', s_mem s' = Some g' /\ gen = g_gen g' /\ all_joined g' = true /\
+             forall k m, In (k, m) (g_members g') -> m_joingen m = gen.
+Proof.
+  intros Hinv H. destruct (join_reply E s _ _ _ _ _ _ _ _ _ _ _ _ Hinv H) as [g' [Hm [Hw [Hg [_ [_ [_ [Hph _]]]]]]]].
+  exists g'. split; [exact Hm|]. split; [exact Hg|].
+  assert (all_joined g' = true) as Haj by (apply (wf_joined E g' Hw); now apply Hph).
+  split; [exact Haj|]. intros k m Hin. subst gen. eapply all_joined_In; eauto.
+Qed.
+
+Lemma c14_leader_is_member E s mid fresh sess reb topics now s' e gen ld id ms :
+  inv E s -> step E s (Join mid fresh sess reb topics now) = (s', RJoin e gen ld id ms) ->
+  exists g' l, s_mem s' = Some g' /\ ld = Some l /\ In l (keys g') /\ In id (keys g').
+Proof.
+  intros Hinv H. destruct (join_reply E s _ _ _ _ _ _ _ _ _ _ _ _ Hinv H) as [g' [Hm [Hw [_ [Hl [Hin _]]]]]].
+  destruct (wf_leader E g' Hw) as [l [H1 H2]]. exists g', l. subst ld. auto.
+Qed.
+
+Lemma c14_members_only_to_leader E s mid fresh sess reb topics now s' e gen ld id ms :
+  inv E s -> step E s (Join mid fresh sess reb topics now) = (s', RJoin e gen ld id ms) ->
+  ms <> [] -> e = NONE /\ ld = Some id.
+Proof.
+  intros Hinv H. destruct (join_reply E s _ _ _ _ _ _ _ _ _ _ _ _ Hinv H) as [g' [_ [_ [_ [_ [_ [_ [_ Hms]]]]]]]].
+  exact Hms.
+Qed.
+
+(* a sync of a current member in the current generation succeeds once the group is
+   Stable (the leader has synced), and the leader's sync succeeds as soon as everybody
+   has rejoined (CompletingRebalance) *)
+Lemma sync_g_ok E g mid :
+  wf E g -> In mid (keys g) ->
+  g_phase g = PStable \/ (g_phase g = PCompleting /\ g_leader g = Some mid) ->
+  exists g' a, sync_g E g mid (g_gen g) = Save g' (RSync NONE a) /\ g_phase g' = PStable /\ g_gen g' = g_gen g.
+Proof.
+  intros Hwf Hin Hph. unfold sync_g. rewrite Z.eqb_refl. cbn [negb].
+  apply amem_In in Hin. rewrite Hin. cbn [negb].
+  destruct Hph as [Hst|[Hc Hl]].
+  - rewrite Hst. cbn [phase_eqb andb negb].
+    destruct (assignment_of g mid) eqn:Ea.
+    + rewrite Hst. cbn [phase_eqb]. eexists _, _. split; [reflexivity|]. split; [exact Hst|reflexivity].
+    + eexists _, _. split; [reflexivity|]. split; [exact Hst|reflexivity].
+  - rewrite Hc. cbn [phase_eqb andb]. rewrite (wf_noassign E g Hwf ltac:(congruence)).
+    cbn [length Z.of_nat Z.eqb andb]. rewrite Hl. unfold opt_z_eqb, opt_eqb. rewrite Z.eqb_refl. cbn [negb andb].
+    unfold mark_stable. cbn [g_phase].
+    match goal with |- context [match ?a with [] => _ | _ :: _ => _ end] => destruct a eqn:Ea end.
+    + cbn [g_phase phase_eqb]. eexists _, _. split; [reflexivity|]. cbn. auto.
+    + eexists _, _. split; [reflexivity|]. cbn. auto.
+Qed.
+
+Lemma c14_sync_after_leader_sync E s mid now g :
+  inv E s -> cur s now = Some g -> In mid (keys g) ->
+  g_phase g = PStable \/ (g_phase g = PCompleting /\ g_leader g = Some mid) ->
+  exists s' a g', step E s (Sync mid (g_gen g) now) = (s', RSync NONE a) /\
+                  s_mem s' = Some g' /\ g_phase g' = PStable /\ g_gen g' = g_gen g.
+Proof.
+  intros Hinv Hc Hin Hph. unfold cur in Hc. cbn [step]. rewrite Hc.
+  destruct (load_spec E s now Hinv) as [[Hn _]|[g0 [Hl0 [Hwf _]]]]; [congruence|].
+  rewrite Hc in Hl0. inversion Hl0; subst g0.
+  destruct (sync_g_ok E g mid Hwf Hin Hph) as [g' [a [Heq [Hp Hg]]]]. rewrite Heq. cbn.
+  pose proof (sync_g_spec E g mid (g_gen g) Hwf) as Hsp. rewrite Heq in Hsp. cbn in Hsp.
+  rewrite commit_group_eq by tauto. eexists _, a, g'. split; [reflexivity|]. cbn. auto.
+Qed.
+
+(* ================= C15 ================= *)
+Definition failover (s : st) : st := mkSt None (s_store s) (s_off s).
+
+Lemma c15_view_preserved E s n0 n1 g :
+  inv E s -> cur s n0 = Some g ->
+  exists g', cur (failover s) n1 = Some g' /\ same_view g g' /\ s_off (failover s) = s_off s.
+Proof.
+  intros Hinv Hc. unfold failover, cur, load. cbn.
+  unfold inv in Hinv. destruct (s_store s) as [pg|] eqn:Es.
+  - destruct Hinv as [g0 [Hw0 [Hpg Hmm]]]. subst pg. eexists. split; [reflexivity|]. split; [|reflexivity].
+    assert (same_view g g0) as Hv0.
+    { unfold cur, load in Hc. destruct Hmm as [Hm0|Hm0]; rewrite Hm0 in Hc.
+      - rewrite Es in Hc. inversion Hc. now apply restore_same_view.
+      - inversion Hc. apply same_view_refl. }
+    eapply same_view_trans; [exact Hv0|]. apply same_view_sym. now apply restore_same_view.
+  - unfold cur, load in Hc. rewrite Hinv, Es in Hc. discriminate.
+Qed.
+
+Lemma failover_inv E s : inv E s -> inv E (failover s).
+Proof. intros H. apply (step_inv E s Failover H). Qed.
+
+(* members of a Stable generation keep working against the new coordinator *)
+Lemma c15_members_keep_working E s now g mid :
+  inv E s -> cur s now = Some g -> g_phase g = PStable -> In mid (keys g) ->
+  let s1 := failover s in
+  (exists s' a, step E s1 (Sync mid (g_gen g) now) = (s', RSync NONE a) /\ a = assignment_of g mid) /\
+  (exists s', step E s1 (Heartbeat mid (g_gen g) now) = (s', RErr NONE)) /\
+  (forall t p off, exists s', step E s1 (Commit mid (g_gen g) t p off now) = (s', RErr NONE) /\
+                              off_get (t, p) (s_off s') = off).
+Proof.
+  intros Hinv Hc Hst Hin. cbn zeta.
+  destruct (c15_view_preserved E s now now g Hinv Hc) as [g' [Hc' [Hv _]]].
+  pose proof (failover_inv E s Hinv) as Hinv'.
+  pose proof (same_view_keys _ _ Hv) as Hk. destruct Hv as [V1 [V2 [V3 [V4 V5]]]].
+  assert (In mid (keys g')) as Hin' by (now rewrite <- Hk).
+  assert (g_phase g' = PStable) as Hst' by congruence.
+  unfold cur in Hc'.
+  destruct (load_spec E (failover s) now Hinv') as [[Hn _]|[g0 [Hl0 [Hwf' _]]]]; [congruence|].
+  rewrite Hc' in Hl0. inversion Hl0; subst g0.
+  split; [|split].
+  - destruct (c14_sync_after_leader_sync E (failover s) mid now g' Hinv' Hc' Hin' (or_introl Hst')) as [s' [a [g2 [Heq [Hm2 _]]]]].
+    rewrite V1. exists s', a. split; [exact Heq|].
+    pose proof (sync_g_spec E g' mid (g_gen g') Hwf') as Hsp.
+    cbn [step] in Heq. rewrite Hc' in Heq. destruct (sync_g E g' mid (g_gen g')) as [gx r|gx r|r]; cbn in Hsp, Heq; try contradiction.
+    + destruct r; try contradiction. inversion Heq; subst. destruct Hsp as [_ [Hne _]]. congruence.
+    + destruct r; try contradiction. destruct Hsp as [_ [_ [_ [_ [_ [_ [_ [_ [_ [_ [Ha2 [Hsame _]]]]]]]]]]]].
+      pose proof (Hsame Hst') as Hgx. subst gx. inversion Heq; subst. symmetry. now apply V5.
+  - cbn [step]. rewrite Hc'. rewrite V1.
+    pose proof (heartbeat_g_spec E g' mid (g_gen g') now Hwf') as Hp. unfold heartbeat_g in *.
+    apply amem_In in Hin'. unfold amem in Hin'. destruct (alookup mid (g_members g')) as [m|]; [|discriminate].
+    rewrite Z.eqb_refl in *. cbn [negb] in *. rewrite Hst' in *. cbn [phase_eqb] in *. eexists. reflexivity.
+  - intros t p off. cbn [step]. rewrite Hc'. rewrite V1. unfold commit_err.
+    apply amem_In in Hin'. rewrite Hin'. rewrite Z.eqb_refl. cbn. eexists. split; [reflexivity|]. cbn.
+    clear. induction (s_off s) as [|[k v] l IH]; cbn.
+    + unfold off_key_eqb. cbn. now rewrite !Z.eqb_refl.
+    + destruct (off_key_eqb (t, p) k) eqn:Ek; cbn; rewrite ?Ek.
+      * unfold off_key_eqb. cbn. now rewrite !Z.eqb_refl.
+      * exact IH.
 Qed.
